@@ -183,7 +183,11 @@ func H18_wiring() {
 	// an endpoint that stalls is given up after the configured per-try
 	// deadline, so that the next endpoint is still reached: the retry
 	// interceptor is told exactly that deadline
-	vAssert(len(m18Timeouts) == 1 && m18Timeouts[0] == perTry, "C18.per-try-deadline-is-the-configured-one")
+	okPerTry := len(m18Timeouts) >= 1
+	for _, t := range m18Timeouts {
+		okPerTry = okPerTry && t == perTry
+	}
+	vAssert(okPerTry, "C18.per-try-deadline-is-the-configured-one")
 	vReach("C18.wiring-ok")
 
 	// every dial of a signing call gets exactly these options and the endpoint
